@@ -125,6 +125,7 @@ type storeRun struct {
 	core *Core
 	dir  string
 	js   *store.JsonDataStore
+	reader *store.JsonDataStore // second store object on the same directory, opened before the first save
 
 	step      int
 	trace     []string
@@ -236,22 +237,18 @@ func (r *storeRun) describe(got string) string {
 // checkDisk: the file on disk (or a crash copy of the directory) must load to
 // the snapshot most recently renamed into place — never anything else.
 func (r *storeRun) checkDisk(dir, when string) {
-	if dir == r.dir {
-		// Look at a copy, the way a process started after a kill at this instant would: opening a second store on the
-		// live directory is something only the harness does, and a store that tidies up temporary files when it is
-		// opened would then delete the files of the saves in flight (which hid a seeded change).
-		cp := r.dir + "-look"
-		_ = os.RemoveAll(cp)
-		if err := copyDir(r.dir, cp); err != nil {
+	// The live directory is read through a second store object opened before the first save. (Opening one per
+	// step is something only a harness does: a store that tidies up temporary files when it is opened then
+	// deleted the files of the saves in flight, which hid a seeded change. What a process started after a kill
+	// sees - constructor included - is checked on the crash copies.)
+	js := r.reader
+	if dir != r.dir || js == nil {
+		var err error
+		js, err = store.NewJSONDataStore(dir)
+		if err != nil {
+			r.violate("r0", "%s: %v", when, err)
 			return
 		}
-		defer os.RemoveAll(cp)
-		dir = cp
-	}
-	js, err := store.NewJSONDataStore(dir)
-	if err != nil {
-		r.violate("r0", "%s: %v", when, err)
-		return
 	}
 	d, err := js.Load()
 	if err != nil {
@@ -304,6 +301,9 @@ func (r *storeRun) execute() error {
 	r.dir = filepath.Join(root, "data")
 	r.js, err = store.NewJSONDataStore(r.dir)
 	if err != nil {
+		return err
+	}
+	if r.reader, err = store.NewJSONDataStore(r.dir); err != nil {
 		return err
 	}
 	verifhook.Handler = r.hook
